@@ -462,6 +462,81 @@ def invalidFields (O : Oracles) (c : ClassOpts) (kw : List (String × PyVal))
     | none => none
     | some v => if isOk (validate O nf.2 v) then none else some nf.1
 
+/-! ### deserialization, phase one: what `deserialize_single_field` rejects
+
+`construct_fields_map` runs `deserialize_single_field` on every supplied (non-null) document value
+and, in collect-all mode, raises what it collected BEFORE the constructor runs.  Phase one performs
+only part of the checks: scalars go through `field._validate` (type, multiplesOf, minimum, maximum,
+length, pattern, membership — everything except the sign mixins, which live in `__set__`);
+collections check "is it list-like / a dict" and their elements / keys / values through the item
+fields, but none of minItems / maxItems / uniqueItems / additionalItems / exact tuple length.
+`Float._validate` converts a non-bool `int` first, so an int-spelled number is checked exactly like
+the float it denotes.  Whatever phase one does not check is left to the constructor (phase two). -/
+
+/-- the declaration as `_validate` sees it: without the sign mixin -/
+def stripSign : FieldDecl → FieldDecl
+  | .number o => .number { o with sign := .any }
+  | .integer o => .integer { o with sign := .any }
+  | .float o => .float { o with sign := .any }
+  | f => f
+
+/-- a scalar document value is rejected in phase one -/
+def p1Scalar (O : Oracles) (f : FieldDecl) (v : PyVal) : Bool := !isOk (validate O (stripSign f) v)
+
+/-- `isinstance(value, (list, tuple, set))` -/
+def listLike : PyVal → Option (List PyVal)
+  | .list xs | .tuple xs | .set _ xs => some xs
+  | _ => none
+
+/-- positional items: some declared position rejects its element -/
+def p1Zip (O : Oracles) : List FieldDecl → List PyVal → Bool
+  | f :: fs, x :: xs => p1Scalar O f x || p1Zip O fs xs
+  | _, _ => false
+
+/-- `set(values)` raises TypeError -/
+def unhashableElem : PyVal → Bool
+  | .list _ | .dict _ | .deque _ | .set false _ => true
+  | _ => false
+
+/-- `deserialize_single_field(field, v, name)` raises TypeError / ValueError (flat fields) -/
+def p1Rejects (O : Oracles) (f : FieldDecl) (v : PyVal) : Bool :=
+  match f with
+  | .seqAny _ _ => (listLike v).isNone
+  | .seqOf _ item _ => (match listLike v with | none => true | some xs => xs.any (p1Scalar O item))
+  | .tupleOf item _ => (match listLike v with | none => true | some xs => xs.any (p1Scalar O item))
+  | .seqPos _ fs _ _ =>
+    (match listLike v with | none => true | some xs => decide (xs.length < fs.length) || p1Zip O fs xs)
+  | .tuplePos fs _ =>
+    (match listLike v with | none => true | some xs => decide (xs.length < fs.length) || p1Zip O fs xs)
+  | .setAny _ _ => (match listLike v with | none => true | some xs => xs.any unhashableElem)
+  | .setOf _ item _ =>
+    (match listLike v with
+     | none => true
+     | some xs => xs.any (p1Scalar O item) || xs.any unhashableElem)
+  | .mapAny _ => (match v with | .dict _ => false | _ => true)
+  | .mapOf kf vf _ =>
+    (match v with
+     | .dict kvs => kvs.any fun kv => p1Scalar O kf kv.1 || p1Scalar O vf kv.2
+     | _ => true)
+  | f => p1Scalar O f v
+
+/-- the supplied fields phase one rejects; a null document value is not processed at all -/
+def phaseOneInvalid (O : Oracles) (doc : List (String × PyVal)) (fields : List (String × FieldDecl)) :
+    List String :=
+  fields.filterMap fun nf =>
+    match lookup nf.1 doc with
+    | none => none
+    | some v => if !v.isNone && p1Rejects O nf.2 v then some nf.1 else none
+
+/-- what deserialization in collect-all mode reports for document `doc` whose lifted constructor
+    arguments are `kw`: phase one's rejections if there are any, else the constructor's -/
+def deserCollected (O : Oracles) (c : ClassOpts) (doc kw : List (String × PyVal))
+    (fields : List (String × FieldDecl)) : List String :=
+  match phaseOneInvalid O doc fields with
+  | [] => invalidFields O c kw fields
+  | ns => ns
+
+
 /-- the field text `p` names the top-level field `top` of class `cls?`:
     `[<Class>.]<top>[_<index> | _key | _value]` -/
 def namesField (cls : Option Text) (top : String) (p : Text) : Prop :=
